@@ -97,6 +97,24 @@ class Lock:
         self.f.close()
 
 
+class GlobalLock:
+    def __init__(self, path):
+        self.path = path
+
+    def __enter__(self):
+        self.f = open(self.path, "a")
+        try:
+            os.chmod(self.path, 0o666)
+        except OSError:
+            pass
+        fcntl.flock(self.f, fcntl.LOCK_EX)
+        return self
+
+    def __exit__(self, *a):
+        fcntl.flock(self.f, fcntl.LOCK_UN)
+        self.f.close()
+
+
 # --------------------------------------------------------------------------- extractor / Gen
 
 EXTRACT_BIN = os.path.join(WORKROOT, "extract.bin")
@@ -269,6 +287,9 @@ def overlay_file(ctx):
         for f in sorted(os.listdir(hd)):
             if f.endswith(".go"):
                 rep[os.path.join(REPO, pkg, f)] = os.path.join(hd, f)
+    glue = os.path.join(WORKROOT, "routes_glue_test.go")
+    if os.path.exists(glue):  # regenerated from main() by the extractor
+        rep[os.path.join(REPO, "cmd/keymasterd", "zz_verif_routes_gen_test.go")] = glue
     p = os.path.join(ctx.work, "overlay.json")
     with open(p, "w") as fh:
         json.dump({"Replace": rep}, fh)
@@ -293,7 +314,18 @@ def run_harness(ctx, pkg, test, ops, timeout=900, extra_env=None, race=False, ta
     if race:
         cmd.append("-race")
     cmd.append("./" + pkg + "/")
-    rc, log = sh(cmd, cwd=REPO, env=env, timeout=timeout + 120)
+    # cmd/keymasterd's own dependency_monitor_test.go init() listens on a fixed port: two test
+    # binaries of that package must never run at the same time on this machine -> global flock.
+    for attempt in range(4):
+        with GlobalLock("/tmp/.verif-gotest.lock"):
+            rc, log = sh(cmd, cwd=REPO, env=env, timeout=timeout + 120)
+        # a test binary started outside this lock (baseline run, another tool) may hold the port:
+        # that is an environment collision, not a result -> retry
+        if rc != 0 and not os.path.exists(out_path) and (
+                "dependency_monitor_test.go" in log or "address already in use" in log):
+            time.sleep(3 + 4 * attempt)
+            continue
+        break
     lines = []
     if os.path.exists(out_path):
         lines = open(out_path).read().split("\n")
